@@ -20,6 +20,14 @@ META = {
 }
 
 
+def _r14_1(ctx):
+    import props.c14 as c14
+    c14.r14_1(ctx)
+
+
+_r14_1.__name__ = 'r14_1'
+
+
 def run(ctx):
     import engine
-    engine.run_rules(ctx, [dt.r02_1, dt.r02_2, dt.r02_3, dt.r02_4, dt.r02_5, dt.r02_6, dt.r02_7, dt.r02_8, ras.r10_4, ras.r10_1, dt.r06_3, dt.r03_3, dt.r05_1, dt.r05_2, dt.r05_3, ras.r01_10, ras.r10_5, ras.r01_11, ras.r01_12, dt.r05_8, ras.r01_5])
+    engine.run_rules(ctx, [dt.r02_1, dt.r02_2, dt.r02_3, dt.r02_4, dt.r02_5, dt.r02_6, dt.r02_7, dt.r02_8, ras.r10_4, ras.r10_1, dt.r06_3, dt.r03_3, dt.r05_1, dt.r05_2, dt.r05_3, ras.r01_10, ras.r10_5, ras.r01_11, ras.r01_12, dt.r05_8, ras.r01_5, ras.r01_6, _r14_1])
